@@ -102,6 +102,7 @@ def run(eng: Engine, ck: Check):
     escm = eng.escape()
     defs.event_bus_emit_contains(eng, ck, 'R-C12-MATCH', 'on_message_received awaits emit() before it completes the waiting requests: every request waiting for that '
                                  'reply would time out although it was answered')
+    defs.waiters_are_fresh(eng, ck, 'R-C12-REMOVE', 'every request is completed, timed out and removed on its own')
     defs.identity_semantics(eng, ck, 'R-C12-REMOVE', [('ExpectedResponse', NET)], 'the done-callback removes the finished waiter with `in` / list.remove(); two '
                             'requests for the same message are different waiters')
     emits = [x for x in calls_on(omr.node, 'emit')]
@@ -143,6 +144,15 @@ def run(eng: Engine, ck: Check):
     floops = [n for n in walk_local(m.node) if isinstance(n, ast.For) and pat.match(n.iter, pat.compile_pattern('self.fields.items()')[0]) is not None
               and isinstance(n.target, ast.Tuple) and len(n.target.elts) == 2]
     ok = False
+    if not floops:
+        # the loop runs over something else than `self.fields.items()`.  A one-shot iterator kept in an attribute is reported by the pitfall layer;
+        # a sequence computed per call by code this rule cannot evaluate (a property building a generator pipeline ..) is NOT DECIDED here: exit 2
+        cand = [n for n in walk_local(m.node) if isinstance(n, ast.For) and isinstance(n.target, ast.Tuple) and len(n.target.elts) == 2]
+        prop = [n for n in cand if isinstance(n.iter, ast.Attribute) and unparse(n.iter.value) == 'self' and n.iter.attr in m.cls.methods and
+                any(unparse(d_) == 'property' for d_ in m.cls.methods[n.iter.attr].node.decorator_list)]
+        if prop:
+            raise AnalysisError(f'R-C12-MATCH: matches() iterates `{unparse(prop[0].iter)}`, a property whose value is computed per call by code outside the fragment; '
+                                'whether it visits exactly the expected fields is not decided')
     if len(floops) == 1:
         kx, vx = (unparse(x) for x in floops[0].target.elts)
         ok = rejects_unequal(f'getattr({resp_p}, {kx}, $$)', vx, within=floops[0])
